@@ -150,11 +150,14 @@ Qed.
 
 Definition no_byte (b : byte) (s : bytes) : Prop := Forall (fun c => c <> b) s.
 
+Lemma frev_rev {A} (l : list A) : frev l = rev l.
+Proof. unfold frev. symmetry. apply rev_alt. Qed.
+
 Lemma raw_lines_aux_line : forall l cur rest, no_byte 10 l ->
   raw_lines_aux cur (l ++ 10 :: rest) = (rev cur ++ l) :: raw_lines_aux [] rest.
 Proof.
   induction l as [|c l IH]; intros cur rest H; cbn [app raw_lines_aux].
-  - rewrite N.eqb_refl, app_nil_r. reflexivity.
+  - rewrite N.eqb_refl, app_nil_r, frev_rev. reflexivity.
   - inversion H as [|? ? Hc Hl]; subst. destruct (N.eqb_spec c 10); [contradiction|].
     rewrite IH by exact Hl. cbn [rev]. now rewrite <- app_assoc.
 Qed.
@@ -171,7 +174,7 @@ Definition line_fits (l : bytes) : Prop := N.of_nat (length l) < max_token.
 
 Lemma drop_cr_keep l : (forall s c, l = s ++ [c] -> c <> 13) -> drop_cr l = l.
 Proof.
-  intros H. unfold drop_cr.
+  intros H. unfold drop_cr. rewrite frev_rev.
   match goal with |- context [match ?x with [] => _ | _ :: _ => _ end] => remember x as rl eqn:E end.
   destruct rl as [|c r]; [reflexivity|].
   destruct (N.eqb_spec c 13) as [->|]; [|reflexivity].
